@@ -72,9 +72,19 @@ def _noise_rebind_bypass(prog, fn, x_rebind_stmt, s_rebind_stmts, fit_call, snam
     goal = cfg.node_of(fit_call).id
     avoid = {cfg.node_of(s_).id for s_ in s_rebind_stmts}
     benign = set()
+    # a flag that asks once whether the noise vector is None / scalar (has_s2 = s2 is not None and not np.isscalar(s2)) stays
+    # true while the vector is only ever re-bound to a row selection of itself
+    flag_defs = {}
+    for t_, v_, s_, k_ in iter_stores(fn.node):
+        if isinstance(t_, ast.Name) and k_ == "assign" and v_ is not None:
+            flag_defs.setdefault(t_.id, []).append(v_)
+    only_row_filters = all(isinstance(v_, ast.Subscript) and isinstance(v_.value, ast.Name) and v_.value.id == sname for s_ in s_rebind_stmts for v_ in [getattr(s_, "value", None)])
     for n in cfg.nodes:
         if n.kind == "test":
-            names = {x.id for x in ast.walk(n.expr) if isinstance(x, ast.Name)} - {"np", "numpy"}
+            e_ = n.expr
+            if isinstance(e_, ast.Name) and len(flag_defs.get(e_.id, [])) == 1 and only_row_filters:
+                e_ = flag_defs[e_.id][0]
+            names = {x.id for x in ast.walk(e_) if isinstance(x, ast.Name)} - {"np", "numpy"}
             if names == {sname}:
                 benign.add(n.id)
     # the noise vector may be filtered *before* X and Y in the same episode: its (None / scalar guarded) filter dominates the
@@ -232,6 +242,16 @@ def retry_mask_freshness(ctx, prog, fit_fns, rule_id="R6"):
                     arrayish = any(d is not None and not (isinstance(d, ast.Constant) or (isinstance(d, ast.Call) and call_name(d) in ("len", "int", "float", "np.size"))) for d in outer_defs[nm])
                     if arrayish and srcs & {xn, yn}:
                         stale.append(nm)
+            # a local that is a plain snapshot of a slot the loop re-binds (``gp_s2 = tmp_gp.s2`` before the loop,
+            # ``tmp_gp.s2 = gp_s2[keep]`` inside): after the first thinning the snapshot still has the old rows
+            slot_stores = {canon(t): st for t, v, st, k in iter_stores(loop) if isinstance(t, ast.Attribute)}
+            for nm, ds in outer_defs.items():
+                if nm in in_loop_defs or len(ds) != 1 or not isinstance(ds[0], ast.Attribute) or canon(ds[0]) not in slot_stores:
+                    continue
+                reads = [x for x in ast.walk(loop) if isinstance(x, ast.Name) and x.id == nm and isinstance(x.ctx, ast.Load)]
+                if reads:
+                    ctx.fail(fn, slot_stores[canon(ds[0])], f"'{nm}' is a snapshot of {canon(ds[0])} taken before the retry loop, but the loop re-binds {canon(ds[0])} (rows are dropped) and keeps reading the snapshot: "
+                             "from the second thinning on the snapshot has the old number of rows (shape error instead of a recovery)", construct=f"stale snapshot {nm} of {canon(ds[0])} in retry loop")
             if stale:
                 ctx.fail(fn, rebinds[0][1], f"the thinning mask combines {stale}, computed once before the retry loop from the training arrays, with arrays of the current length: after the first thinning the lengths differ and the next removal fails with a shape error instead of recovering", construct=f"stale mask operand {stale[0]} in retry")
             else:
